@@ -27,18 +27,26 @@ TECHNIQUE = ("exhaustive small-scope enumeration of decisions x cross designs x 
              "stub, against independent multiplicity / local-minimum / best-k / equivariance definitions")
 RULE = ("Part A: one execution = one (configuration class, decision vector, cross map, ncross, nparent, generator kind, "
         "answer vector of every choice()/shuffle()/uniform() draw) through the real constructor + sample_xconfig(); "
-        "answers: choice = all ordered samples by value, 1-D shuffle = all distinct arrangements, exchange-order shuffle "
-        "= one representative per behaviour class (which improving exchange comes first; all of them), SUS offset = 8 "
-        "reachable values incl. extremes.  Part B: one execution = one select() on (protocol class, population size, "
-        "criterion ordering, population order/labels, design, weights, optimiser, sampling answers).  Non-trivial = "
-        ">=2 slots and >=2 candidate units; distinct by digest of (class, inputs, answers)")
-ASSUME = ["numpy generators can return every ordered sample / permutation / uniform(0,d)=d*j*2^-53 that the script injects",
+        "answers: tiling remainder choice = every sub-multiset by value (its order is immaterial: the only consumer "
+        "shuffles the result exhaustively next), 1-D shuffle = every distinct arrangement, exchange-order shuffle = one "
+        "representative per behaviour class (which improving exchange is met first; all of them), final within-cross "
+        "shuffles = full product up to 4 slots, at 6 slots every cross fully enumerated in turn (others default), SUS "
+        "offset = 8 reachable values incl. both extremes (4 at 6 slots).  Part B: one execution = one select() on "
+        "(protocol class, population size, criterion ordering = every weak ordering, population order/labels, design, "
+        "weight sign, optimiser, class parameters, sampling answers: default + all single deviations on every 13th/29th "
+        "case).  Non-trivial = >=2 slots and >=2 candidate units; distinct by digest of (class, inputs, answers)")
+ASSUME = ["numpy generators can return every sample / permutation / uniform(0,d)=d*j*2^-53 that the script injects",
           "mc/compat.py restores removed numpy names only",
           "exchange-order answers are grouped by the first improving exchange (sound for the loop as written: it accepts "
-          "the first improving exchange of the shuffled order and ignores the rest)",
-          "criteria whose definition belongs to other properties (UC, EMBV, kinship-based, haplotype-based other than "
-          "OHV on single-marker blocks) are taken from the library's own problem evaluated on the canonically ordered "
-          "population; EBV / GEBV / wGEBV / random / OHV criteria are computed independently"]
+          "the first improving exchange of the shuffled order and ignores the rest); the harness mirrors the accepted "
+          "exchange on its own copy of the table only to build the next menu, never to judge",
+          "criteria whose definition belongs to other properties (UC, kinship-based, allele-frequency based, OPV, "
+          "genotype builder, family shares) are taken from the library's own problem posed on the canonically ordered "
+          "population (equivariance oracle); EBV / GEBV / wGEBV / random / OHV (single-marker blocks) criteria are "
+          "computed independently; EMBV (simulation based) gets the validity oracle only",
+          "brute-force optimisers scan integer boxes clipped to [lower, lower+2] and real boxes on the grid {0,1/2,1}: exact "
+          "for the ratio-type criteria of the truncation protocols, a bounded scope for the others",
+          "'within one of the proportional share' is read literally (|count - share| <= 1); floor/ceil is C17's business"]
 
 # --------------------------------------------------------------------------------------
 CFG = {
@@ -163,8 +171,7 @@ def _estimate(enc, decn, c, p, noff):
     for x in cnt:
         arr //= max(1, math.factorial(x))
     arr = max(1, min(arr, math.factorial(s)))
-    dup = sum(max(0, x - 1) for x in cnt)
-    return int(arr * nch * noff * (1 + 2 * min(dup, 3)) * (1 if s <= 2 else (2 if s <= 4 else 4))) + 5
+    return int(arr * nch * noff * (2 if s <= 3 else (8 if s <= 4 else 40))) + 5
 
 
 def xmaps_A(tier):
@@ -227,8 +234,8 @@ def shards(tier, seed):
                         units.append((_estimate(enc, decn, c, p, 1), (key, c, p, decn, dt, None, (j,), None)))
                 else:
                     e = _estimate(enc, decn, c, p, len(menu) if menu else 1)
-                    if e > 2 * target:
-                        nsplit = 4
+                    if e > target:
+                        nsplit = min(8, e // target + 2)
                         for part in range(nsplit):
                             units.append((e // nsplit, (key, c, p, decn, dt, None, menu, (part, nsplit))))
                     else:
@@ -807,7 +814,7 @@ def run_B_SO(ctx, info, n, t, ranks, vi, design, wt, opt, pi, nmi, answers=None,
 
             def rethrow(e=e):
                 raise e
-            ctx.guard(rethrow, case=case, sig_prefix=P)
+            ctx.guard(rethrow, case=case, sig_prefix=_exc_prefix(e, P))
             ctx.count(f"B:exception:{info['cls']}")
             continue
         _, cfg, misc, so, proto, h = res
@@ -828,9 +835,36 @@ def run_B_SO(ctx, info, n, t, ranks, vi, design, wt, opt, pi, nmi, answers=None,
                             taxa=[str(x) for x in pop.pgmat.taxa.tolist()]))
 
 
+def _exc_prefix(e, default):
+    """an exception raised inside a configuration's sampling gets the configuration's signature prefix (the same
+    one part A uses), whichever protocol happened to build that configuration"""
+    tb = e.__traceback__
+    while tb is not None:
+        fn = tb.tb_frame.f_code.co_filename
+        if "/breed/prot/sel/cfg/" in fn and tb.tb_frame.f_code.co_name == "sample_xconfig":
+            return fn.rsplit("/", 1)[1][:-3] + ".sample_xconfig:"
+        tb = tb.tb_next
+    return default
+
+
+def _sel_prefix(proto):
+    """signature prefix naming the class that DEFINES select() (the eight encoding base classes), so that one root
+    cause in a shared select() gives one signature, not one per concrete protocol"""
+    for k in type(proto).__mro__:
+        if "select" in vars(k):
+            return f"{k.__name__}.select:"
+    return f"{type(proto).__name__}.select:"
+
+
+def _cfg_prefix(cfg):
+    return f"{type(cfg).__name__}.sample_xconfig:"
+
+
 def _handed_through(P, cfg, pop, proto, design, nmnp, soln_decn):
+    P = _sel_prefix(proto)
     c, p = design
     require(cfg.pgmat is pop.pgmat, P + "pgmat-not-handed-through", "configuration holds a different genotype matrix object than the one passed to select()")
+    require(pop.pgmat_unchanged(), P + "pgmat-changed", "select() modified the genotype matrix it was given (genotypes / taxa order)")
     require(numpy.array_equal(numpy.asarray(cfg.xconfig_decn), numpy.asarray(soln_decn)) and numpy.asarray(cfg.xconfig_decn).dtype.kind == numpy.asarray(soln_decn).dtype.kind,
             P + "decision-not-handed-through", lambda: f"xconfig_decn {numpy.asarray(cfg.xconfig_decn).tolist()} is not the chosen solution {numpy.asarray(soln_decn).tolist()}")
     require(cfg.ncross == c and cfg.nparent == p, P + "design", lambda: f"configuration is {cfg.ncross}x{cfg.nparent}, requested {c}x{p}")
@@ -847,7 +881,7 @@ def _xmap_of(P, info, cfg, soln, pop, par, p):
     ref = R.xmap_ref(pop.n, p, par.get("unique", True))
     require(len(rows) == len(set(rows)) and set(rows) == set(ref), P + "cross-map-not-upper-triangle",
             lambda: f"decn_space_xmap {rows} expected (any order) {ref}")
-    require(numpy.array_equal(numpy.asarray(cfg.xconfig_xmap), xm), P + "xmap-not-handed-through", "configuration's cross map differs from the solution's")
+    require(numpy.array_equal(numpy.asarray(cfg.xconfig_xmap), xm), "MateSelectionProtocol.select:xmap-not-handed-through", "configuration's cross map differs from the solution's")
     return rows
 
 
@@ -867,12 +901,13 @@ def oracle_B_SO(ctx, info, F, par, pop, crit, t, design, nmnp, wt, opt, cfg, mis
     P = f"{info['cls']}.select:"
     enc, mate, fam = info["enc"], info["mate"], info["fam"]
     c, p = design
-    require("sosoln" in misc, P + "miscout", "miscout['sosoln'] missing")
+    PS = _sel_prefix(proto)
+    require("sosoln" in misc, PS + "miscout", "miscout['sosoln'] missing")
     soln = misc["sosoln"]
-    require(soln.soln_decn.shape[0] >= 1, P + "no-solution", "empty solution")
+    require(soln.soln_decn.shape[0] >= 1, PS + "no-solution", "empty solution")
     decn_arr = soln.soln_decn[0]
     if opt != "sorting":
-        require(numpy.array_equal(decn_arr, so.last.soln_decn[0]) and close(soln.soln_obj, so.last.soln_obj), P + "solution-not-handed-through",
+        require(numpy.array_equal(decn_arr, so.last.soln_decn[0]) and close(soln.soln_obj, so.last.soln_obj), PS + "solution-not-handed-through",
                 lambda: f"sosoln {decn_arr.tolist()} differs from what the optimiser returned {so.last.soln_decn[0].tolist()}")
     _handed_through(P, cfg, pop, proto, design, nmnp, decn_arr)
     decn = decn_arr.tolist()
@@ -882,7 +917,7 @@ def oracle_B_SO(ctx, info, F, par, pop, crit, t, design, nmnp, wt, opt, cfg, mis
         require(len(set(decn)) == len(decn) and all(0 <= v < nunits for v in decn), P + "invalid-decision", lambda: f"decision {decn} over {nunits} units")
     else:
         require(len(decn) == nunits, P + "invalid-decision", lambda: f"decision {decn} over {nunits} units")
-    _check_xconfig(P, enc, mate, decn, rows, c, p, cfg.xconfig, ctx)
+    _check_xconfig(_cfg_prefix(cfg), enc, mate, decn, rows, c, p, cfg.xconfig, ctx)
     require(int(cfg.xconfig.min()) >= 0 and int(cfg.xconfig.max()) < pop.n, P + "index-out-of-population", lambda: f"{cfg.xconfig.tolist()} for {pop.n} candidates")
     kind = F["kind"]
     sgn = 1.0 if wt > 0 else -1.0
@@ -1005,11 +1040,13 @@ def run_B_MO(ctx, info, n, front, spec, ndwt, design, vi, answers=None, seed=Non
     except Exception as e:
         def rethrow(e=e):
             raise e
-        ctx.guard(rethrow, case=case, sig_prefix=P)
+        ctx.guard(rethrow, case=case, sig_prefix=_exc_prefix(e, P))
         ctx.count(f"B:exception:{info['cls']}")
         return
 
     def chk():
+        P = _sel_prefix(proto)
+        PC = f"{info['cls']}.select:"
         require("mosoln" in misc and misc["mosoln"].soln_decn.shape == mo.decns.shape and numpy.array_equal(misc["mosoln"].soln_decn, mo.decns)
                 and close(misc["mosoln"].soln_obj, objs), P + "mo-solution-not-handed-through", "miscout['mosoln'] is not the optimiser's non-dominated set")
         got = numpy.asarray(cfg.xconfig_decn)
@@ -1028,8 +1065,8 @@ def run_B_MO(ctx, info, n, front, spec, ndwt, design, vi, answers=None, seed=Non
                 ctx.flag("B-MO:tied-scores")
         decn = mo.decns[j].tolist()
         _handed_through(P, cfg, pop, proto, design, nmnp, mo.decns[j])
-        rows = _xmap_of(P, info, cfg, misc["mosoln"], pop, par, p) if mate else None
-        _check_xconfig(P, enc, mate, decn, rows, c, p, cfg.xconfig, ctx)
+        rows = _xmap_of(PC, info, cfg, misc["mosoln"], pop, par, p) if mate else None
+        _check_xconfig(_cfg_prefix(cfg), enc, mate, decn, rows, c, p, cfg.xconfig, ctx)
         return j
     ok = ctx.guard(chk, case=case, sig_prefix=P)
     ctx.flag(f"B-MO:{info['cls']}")
@@ -1081,10 +1118,15 @@ def run_shard(spec, ctx):
 
 
 def finalize(ctx, tier, seed):
+    # vacuity guards that a broken library can trip are waived when that breakage is itself reported as a NEW violation
+    from ..core import load_known, match_known
+    known = load_known()
+    broken = any(match_known(ID, sig, known) is None for sig in ctx.violations)
     for key in CFG:
-        assert ctx.counters.get(f"A:exec:{key}", 0) > 0, key
-    assert "A:outcross-improved" in ctx.flags
-    assert "A:sus-nondefault-offset" in ctx.flags
+        assert ctx.counters.get(f"A:exec:{key}", 0) + ctx.counters.get(f"A:exception:{key}", 0) > 0, key
+        assert ctx.counters.get(f"A:exec:{key}", 0) > 0 or broken, key
+    assert "A:outcross-improved" in ctx.flags or broken
+    assert "A:sus-nondefault-offset" in ctx.flags or broken
     assert "A:array-counts" in ctx.flags and "A:bool-decision" in ctx.flags
     assert "A:kind:Generator" in ctx.flags and "A:kind:RandomState" in ctx.flags
     assert ctx.counters.get("X:xmap-cases", 0) == 40
@@ -1095,10 +1137,10 @@ def finalize(ctx, tier, seed):
         assert f"B-MO:{info['cls']}" in ctx.flags or ctx.counters.get(f"B:exception:{info['cls']}", 0) > 0, info["cls"]
     for f in ("B-SO:opt:sorting", "B-SO:opt:first", "B-SO:opt:last", "B-SO:ties", "B-MO:spec:default", "B-MO:spec:table",
               "B-MO:ndwt:neg", "B-MO:ndwt:pos", "B-MO:tied-scores"):
-        assert f in ctx.flags, f
-    assert ctx.counters.get("B-SO:independent-criterion-checks", 0) > 1000
-    assert ctx.counters.get("B-SO:canonical-equivariance-checks", 0) > 100
-    assert ctx.counters.get("B-MO:choice-rule-judged", 0) > 1000
+        assert f in ctx.flags or broken, f
+    assert ctx.counters.get("B-SO:independent-criterion-checks", 0) > 1000 or broken
+    assert ctx.counters.get("B-SO:canonical-equivariance-checks", 0) > 100 or broken
+    assert ctx.counters.get("B-MO:choice-rule-judged", 0) > 1000 or broken
     assert len(ctx.outcomes) > 100, len(ctx.outcomes)
 
 
